@@ -386,3 +386,97 @@ family_fix!(chk_fix_c09, G_C09);
 family_fix!(chk_fix_c13, G_C13);
 family_fix!(chk_fix_c06, G_C06);
 family_fix!(chk_fix_c03, G_C03);
+
+/// branch-per-value concretisation of a small symbolic number (one path per value)
+pub fn pick(v: usize, max: usize) -> usize {
+    let mut i = 0;
+    while i < max {
+        if v == i {
+            return i;
+        }
+        i += 1;
+    }
+    max
+}
+
+/// Mutation family. Input: [k][k x (start u16, crc_at u16)][mode][p0][p1][v0][v1] || file bytes.
+///  mode 0: file as given (content bytes may be symbolic), checksums recomputed
+///  mode 1: byte at position p0 := v0, checksums recomputed afterwards (structural corruption behind a VALID checksum)
+///  mode 2: byte at position p0 := v0, checksums left alone
+///  mode 3: file (checksums recomputed) truncated to p0 bytes
+///  mode 4: file extended by p0 (1 or 2) bytes v0, v1
+///  mode 5: bytes at p0 and p1 := v0, v1, checksums recomputed
+pub fn mutated(raw: &[u8], groups: u32) -> u32 {
+    if raw.is_empty() {
+        return 0;
+    }
+    let k = raw[0] as usize;
+    let hdr = 1 + 4 * k + 5;
+    if raw.len() < hdr {
+        return 0;
+    }
+    let mut fix = Vec::with_capacity(k);
+    let mut i = 0;
+    while i < k {
+        let o = 1 + 4 * i;
+        fix.push(((raw[o] as usize) | ((raw[o + 1] as usize) << 8), (raw[o + 2] as usize) | ((raw[o + 3] as usize) << 8)));
+        i += 1;
+    }
+    let mode = raw[1 + 4 * k];
+    let (p0, p1, v0, v1) = (raw[hdr - 4] as usize, raw[hdr - 3] as usize, raw[hdr - 2], raw[hdr - 1]);
+    let mut buf = raw[hdr..].to_vec();
+    let n = buf.len();
+    match mode {
+        0 => fix_crcs(&mut buf, &fix),
+        1 => {
+            crate::assume(p0 < n);
+            let p = pick(p0, n);
+            crate::assume(buf[p] != v0);
+            buf[p] = v0;
+            fix_crcs(&mut buf, &fix);
+        }
+        2 => {
+            fix_crcs(&mut buf, &fix);
+            crate::assume(p0 < n);
+            let p = pick(p0, n);
+            crate::assume(buf[p] != v0);
+            buf[p] = v0;
+        }
+        3 => {
+            fix_crcs(&mut buf, &fix);
+            crate::assume(p0 < n);
+            let p = pick(p0, n);
+            buf.truncate(p);
+        }
+        4 => {
+            fix_crcs(&mut buf, &fix);
+            buf.extend_from_slice(&[v0]);
+            if p0 == 2 {
+                buf.extend_from_slice(&[v1]);
+            }
+        }
+        _ => {
+            crate::assume(p0 < n && p1 < n && p0 < p1);
+            let a = pick(p0, n);
+            let b = pick(p1, n);
+            buf[a] = v0;
+            buf[b] = v1;
+            fix_crcs(&mut buf, &fix);
+        }
+    }
+    parse_family(&buf, groups)
+}
+
+macro_rules! family_mut {
+    ($name:ident, $g:expr) => {
+        #[no_mangle]
+        pub extern "C" fn $name(p: *const u8, n: usize) -> u32 {
+            mutated(unsafe { input(p, n) }, $g)
+        }
+    };
+}
+family_mut!(chk_mut_c04, G_C04);
+family_mut!(chk_mut_c09, G_C09);
+family_mut!(chk_mut_c13, G_C13);
+family_mut!(chk_mut_c06, G_C06);
+family_mut!(chk_mut_c03, G_C03);
